@@ -15,10 +15,7 @@ import (
 	"verif.local/vlib"
 )
 
-const (
-	vMinDelay = 3 * time.Second
-	vMs       = time.Millisecond
-)
+const vMinDelay = 3 * time.Second
 
 // A c06Ev is one solicitation of a history.
 type c06Ev struct {
@@ -106,8 +103,6 @@ func (c *c06Case) horizon() time.Duration {
 	}
 	return 48*time.Second + c.Min // after this tick times are no longer known
 }
-
-var vTiming = os.Getenv("VERIF_TIMING") != "0"
 
 // c06Check applies oracles (S) and (L) to the multicast transmissions of a
 // trace.  gens gives the start instants of each generation.
@@ -219,19 +214,6 @@ func c06Check(r *vlib.Run, c *c06Case, ev []vfake.Event, runReturned bool) {
 			}
 		}
 	}
-}
-
-func vOnly(ev []vfake.Event, kinds ...string) []vfake.Event {
-	var out []vfake.Event
-	for _, e := range ev {
-		for _, k := range kinds {
-			if e.Kind == k {
-				out = append(out, e)
-				break
-			}
-		}
-	}
-	return out
 }
 
 // c06Run executes one history against the real advertiser.
